@@ -2,6 +2,7 @@
 package lease_set2
 
 import (
+	"crypto/ed25519"
 	"encoding/binary"
 	"sort"
 	"strings"
@@ -13,6 +14,7 @@ import (
 	"github.com/go-i2p/common/lease"
 	"github.com/go-i2p/common/offline_signature"
 	sig "github.com/go-i2p/common/signature"
+	goi2ped25519 "github.com/go-i2p/crypto/ed25519"
 	"github.com/go-i2p/logger"
 	"github.com/samber/oops"
 )
@@ -1006,6 +1008,28 @@ func determineSignatureType(dest destination.Destination, offlineSig *offline_si
 	return uint16(dest.KeyCertificate.SigningPublicKeyType())
 }
 
+// ed25519PrivateKeyOf returns the 64-byte Ed25519 private key held by signingKey, or nil
+// if signingKey is not one of the supported Ed25519 key forms.
+func ed25519PrivateKeyOf(signingKey interface{}) ed25519.PrivateKey {
+	switch key := signingKey.(type) {
+	case ed25519.PrivateKey:
+		if len(key) == ed25519.PrivateKeySize {
+			return key
+		}
+	case [64]byte:
+		return ed25519.PrivateKey(key[:])
+	case *goi2ped25519.Ed25519PrivateKey:
+		if key != nil && len(*key) == ed25519.PrivateKeySize {
+			return ed25519.PrivateKey(key.Bytes())
+		}
+	case []byte:
+		if len(key) == ed25519.PrivateKeySize {
+			return ed25519.PrivateKey(key)
+		}
+	}
+	return nil
+}
+
 // createLeaseSet2Signature signs the LeaseSet2 data with the provided key.
 func createLeaseSet2Signature(signingKey interface{}, data []byte, sigType uint16) (sig.Signature, error) {
 	// This is a placeholder - actual signing would use the crypto library
@@ -1018,9 +1042,17 @@ func createLeaseSet2Signature(signingKey interface{}, data []byte, sigType uint1
 			Errorf("unknown signature type: %d", sigType)
 	}
 
-	// TODO: Implement actual signing using the signingKey
-	// This would call into crypto/signature package to create real signatures
-	// For now, return an empty signature of the correct size
+	// Ed25519 and RedDSA signatures are produced when the caller supplies an Ed25519 private
+	// key in one of the forms NewEncryptedLeaseSet accepts; the signed data already carries
+	// the 0x03 store-type prefix that LeaseSet2.Verify checks.
+	if sigType == sig.SIGNATURE_TYPE_EDDSA_SHA512_ED25519 || sigType == sig.SIGNATURE_TYPE_REDDSA_SHA512_ED25519 {
+		if privateKey := ed25519PrivateKeyOf(signingKey); privateKey != nil {
+			return sig.NewSignatureFromBytes(ed25519.Sign(privateKey, data), int(sigType))
+		}
+	}
+
+	// Other key forms and signature types are not implemented: an empty signature of the
+	// correct size is stored (it does not verify).
 	signatureData := make([]byte, sigSize)
 	signature, err := sig.NewSignatureFromBytes(signatureData, int(sigType))
 	if err != nil {
